@@ -77,6 +77,8 @@ func (m *ctxModel) write(loc string, v int) {
 		}
 	case "func.default":
 		m.defaults = append(m.defaults, val)
+	case "print.capture":
+		m.vals[loc] = val + "\n" // a fresh capture object holding exactly this print
 	case "type.int", "type.list", "type.exc":
 		// attributes of built-in types cannot be set: no effect
 	default:
@@ -147,6 +149,11 @@ func (m *ctxModel) read(loc string) string {
 			return q(v)
 		}
 		return q("unset")
+	case "print.capture":
+		if v, ok := m.vals[loc]; ok {
+			return q(v)
+		}
+		return q("not-captured")
 	case "string.attr":
 		if v, ok := m.vals[loc]; ok {
 			return q(v)
